@@ -22,36 +22,68 @@
 (***************************************************************************)
 EXTENDS Expr, TLC, Json, Randomization
 
-CONSTANTS N, AV, SVs, NCase, NPred
+(***************************************************************************)
+(* Extended scope (coverage audit):                                         *)
+(*   st   has a nested struct field  in{u Int64, w Int64}  (two levels);    *)
+(*        per row the struct itself may be NULL (sn);                       *)
+(*   ls   List<Struct{p, q}> with one element per row (list-of-struct);     *)
+(*   t    Timestamp(us) in the table, file unit s/ms/us/ns, optionally UTC; *)
+(*   m    Decimal(10,2) in the table, file precision/scale (5,1) (7,2);     *)
+(*   s    may be dictionary-encoded in the file.                            *)
+(* Logical file row: <<a, b, s, p, q, sn, u, t, m>>; adapted row:           *)
+(*   <<a, b, s, st.p, st.q, st IS NULL, st.in.u, st.in.w, ls[1].p, ls[1].q, *)
+(*     t (seconds), m>>   (st.in.w carries b's value, ls[1] = {p, q}).      *)
+(***************************************************************************)
+CONSTANTS N, AV, SVs, NCase
 VARIABLES files, pred
 
-Variants == [ha : BOOLEAN, hb : BOOLEAN, hs : BOOLEAN, hst : BOOLEAN, order : 0..5, extra : BOOLEAN,
-             ta : {"i8", "i32", "i64"}, tb : {"i8", "i32", "i64"}, ts : {"utf8", "large"},
-             stv : {"pq", "qp", "p", "q", "pqr"}]
+Variants == [ha : BOOLEAN, hb : BOOLEAN, hs : BOOLEAN, hst : BOOLEAN, hls : BOOLEAN, ht : BOOLEAN, hm : BOOLEAN,
+             order : 0..5, extra : BOOLEAN,
+             ta : {"i8", "i32", "i64"}, tb : {"i8", "i32", "i64"}, ts : {"utf8", "large", "dict"},
+             stv : {"pq", "qp", "p", "q", "pqr"}, inv : {"none", "uw", "wu", "u", "uwz"},
+             tt : {"s", "ms", "us", "ns", "ms_utc"}, tm : {"5_1", "7_2", "10_2"}]
 IntVals == {I(v) : v \in AV} \cup {Null}
 StrVals == {S(v) : v \in SVs} \cup {Null}
 RandomRow(k) == <<RandomElement(IntVals), RandomElement(IntVals), RandomElement(StrVals),
-                  RandomElement(IntVals), RandomElement(StrVals)>>
-RandomFile(k) == [v |-> RandomElement(Variants), rows |-> [i \in 1..N |-> RandomRow(i)]]
+                  RandomElement(IntVals), RandomElement(StrVals), RandomElement({FalseV, FalseV, TrueV}),
+                  RandomElement(IntVals), RandomElement(IntVals), RandomElement(IntVals)>>
+\* missing columns are more interesting than present ones: bias the presence flags
+RandomVariant(k) == [RandomElement(Variants) EXCEPT !.ha = RandomElement({TRUE, TRUE, FALSE}), !.hst = RandomElement({TRUE, TRUE, TRUE, FALSE})]
+RandomFile(k) == [v |-> RandomVariant(k), rows |-> [i \in 1..N |-> RandomRow(i)]]
 
-HasP(v) == v.hst /\ v.stv \in {"pq", "qp", "p", "pqr"}
-HasQ(v) == v.hst /\ v.stv \in {"pq", "qp", "q", "pqr"}
+StNull(v, r) == ~v.hst \/ IsTrue(r[6])
+HasP(v) == v.stv \in {"pq", "qp", "p", "pqr"}
+HasQ(v) == v.stv \in {"pq", "qp", "q", "pqr"}
+HasU(v) == v.inv \in {"uw", "wu", "u", "uwz"}
+HasW(v) == v.inv \in {"uw", "wu", "uwz"}
 Adapt(v, r) == << IF v.ha THEN r[1] ELSE Null, IF v.hb THEN r[2] ELSE Null, IF v.hs THEN r[3] ELSE Null,
-                  IF HasP(v) THEN r[4] ELSE Null, IF HasQ(v) THEN r[5] ELSE Null >>
-\* the struct value itself is NULL iff the file has no st column
-StructNull(v) == ~v.hst
+                  IF ~StNull(v, r) /\ HasP(v) THEN r[4] ELSE Null,
+                  IF ~StNull(v, r) /\ HasQ(v) THEN r[5] ELSE Null,
+                  B(StNull(v, r)),
+                  IF ~StNull(v, r) /\ HasU(v) THEN r[7] ELSE Null,
+                  IF ~StNull(v, r) /\ HasW(v) THEN r[2] ELSE Null,
+                  IF v.hls /\ HasP(v) THEN r[4] ELSE Null,
+                  IF v.hls /\ HasQ(v) THEN r[5] ELSE Null,
+                  IF v.ht THEN r[8] ELSE Null,
+                  IF v.hm THEN r[9] ELSE Null >>
+NOut == 12
 
-ColVals(c) == IF c \in {3, 5} THEN {S(v) : v \in SVs} ELSE {I(v) : v \in AV}
-Atoms ==
-  UNION {{Bin(op, Col(c), Lit(v)) : op \in {"=", "<>", "<", ">="}, v \in ColVals(c)} : c \in 1..5}
-  \cup UNION {{InList(Col(c), <<Lit(v), Lit(w)>>, ng) : v \in ColVals(c), w \in ColVals(c), ng \in BOOLEAN} : c \in 1..3}
-  \cup {Un(f, Col(c)) : f \in {"isnull", "isnotnull"}, c \in 1..5}
-  \cup {Bin(op, Col(1), Col(2)) : op \in {"=", "<", ">="}}
-Preds ==
-  Atoms
-  \cup {Bin("and", x, y) : x \in Atoms, y \in Atoms}
-  \cup {Bin("or", x, y) : x \in Atoms, y \in Atoms}
-  \cup {Un("not", x) : x \in Atoms}
+StrCols == {3, 5, 10}
+ColVals(c) == IF c \in StrCols THEN {S(v) : v \in SVs} ELSE IF c = 6 THEN {TrueV, FalseV} ELSE {I(v) : v \in AV}
+RandLit(c) == Lit(RandomElement(ColVals(c)))
+AtomOn(c, kind) ==
+  IF c = 6 THEN Bin("=", Col(6), RandLit(6))
+  ELSE CASE kind = "cmp"  -> Bin(RandomElement({"=", "<>", "<", ">="}), Col(c), RandLit(c))
+         [] kind = "in"   -> InList(Col(c), <<RandLit(c), RandLit(c)>>, RandomElement(BOOLEAN))
+         [] kind = "null" -> Un(RandomElement({"isnull", "isnotnull"}), Col(c))
+         [] kind = "colcol" -> Bin(RandomElement({"=", "<", ">="}), Col(1), Col(2))
+RandAtom(k) == AtomOn(RandomElement({1, 1, 2, 3, 4, 5, 6, 7, 8, 9, 11, 12}), RandomElement({"cmp", "cmp", "in", "null", "colcol"}))
+Shape(sh, x, y) ==
+  CASE sh = "atom" -> x
+    [] sh = "and" -> Bin("and", x, y)
+    [] sh = "or" -> Bin("or", x, y)
+    [] sh = "not" -> Un("not", x)
+RandomPred(k) == Shape(RandomElement({"atom", "atom", "and", "or", "not"}), RandAtom(k), RandAtom(k + 1))
 
 AdaptedRows(fl) == [i \in 1..Len(fl.rows) |-> Adapt(fl.v, fl.rows[i])]
 RECURSIVE ScanFrom(_, _, _)
@@ -60,21 +92,22 @@ ScanFrom(fs, p, i) ==
   ELSE SelectSeq(AdaptedRows(fs[i]), LAMBDA r : Holds(Eval(p, r))) \o ScanFrom(fs, p, i + 1)
 Scan(fs, p) == ScanFrom(fs, p, 1)
 
-\* laws of the specification: a column the file lacks is NULL on every adapted row; adapting is
-\* the identity on a file that has the table's columns
+\* laws of the specification: a column the file lacks is NULL on every adapted row; a file without the
+\* struct column has a NULL struct on every row and all of its fields are NULL
 Laws(fs) ==
-  \A i \in 1..Len(fs) :
-    /\ ~fs[i].v.ha => \A r \in 1..N : IsNull(AdaptedRows(fs[i])[r][1])
-    /\ (fs[i].v.ha /\ fs[i].v.hb /\ fs[i].v.hs /\ fs[i].v.hst /\ fs[i].v.stv \in {"pq", "qp", "pqr"})
-          => AdaptedRows(fs[i]) = fs[i].rows
+  \A i \in 1..Len(fs) : \A r \in 1..N :
+    LET x == AdaptedRows(fs[i])[r] IN
+    /\ ~fs[i].v.ha => IsNull(x[1])
+    /\ ~fs[i].v.hst => IsTrue(x[6])
+    /\ IsTrue(x[6]) => IsNull(x[4]) /\ IsNull(x[5]) /\ IsNull(x[7]) /\ IsNull(x[8])
+    /\ Len(x) = NOut
 
-Init == /\ \E k \in 1..NCase : files = <<RandomFile(k), RandomFile(k + 100)>>
-        /\ pred \in RandomSubset(NPred, Preds)
+Init == \E k \in 1..NCase : /\ files = <<RandomFile(k), RandomFile(k + 100)>>
+                            /\ pred = RandomPred(k)
 Next == UNCHANGED <<files, pred>>
 Spec == Init /\ [][Next]_<<files, pred>>
 
 Case == [files |-> files, filter |-> pred, expect |-> Scan(files, pred),
-         all |-> Scan(files, Lit(TrueV)),
-         structnull |-> [i \in 1..Len(files) |-> StructNull(files[i].v)]]
+         all |-> Scan(files, Lit(TrueV))]
 Emit == Laws(files) /\ PrintT(<<"CASE", ToJson(Case)>>)
 =============================================================================
